@@ -185,7 +185,9 @@ def post_run(tier, seed, merged):
         merged["violations"]["tsan:%s@%s" % (res["kind"][:50], res.get("location", "?"))] = {
             "count": res.get("reports", 1), "detail": {"stderr": res.get("stderr")}, "case": {"requests": reqs},
             "index": None, "proc": None}
-    small = [dict(r, threads=3, rounds=1, events=r["events"][:2]) for r in reqs[-3:]]
+    # Miri cannot cross the C FFI (onig behind parse_grok(s), zstd): those programs stay with TSan only
+    pure = [r for r in reqs if not any(w in r.get("src", "") for w in ("grok", "zstd"))]
+    small = [dict(r, threads=3, rounds=1, events=r["events"][:2]) for r in pure[-3:]]
     res = sanitize.miri_replay(small, "C14", many_seeds=4, timeout=5400)
     merged["sanitizers"]["miri_many_seeds"] = {k: v for k, v in res.items() if k != "stderr"}
     if res["status"] == "report":
